@@ -25,7 +25,7 @@ def scenario(rng, ident):
         n += 1
         me = b"p.m%d" % n
         meths.append(me)
-        k = rng.below(8)
+        k = rng.below(10)
         pad = rng.below(60)
         if k == 0:      # answered call
             s += [scn.call(n, pad=pad, meth=me), "replyto/%d" % n, "await/c%d" % n]
@@ -50,6 +50,21 @@ def scenario(rng, ident):
             s += [scn.feed_call(seq, n, meth=me, pad=pad), "waithandlers/%d" % (hid + 1), scn.finish(hid, n, pad=rng.below(40)), "settle"]
             hid += 1
             wants.append("call~%d~served" % n)
+        elif k == 9:    # incoming call for a method / protocol nobody registered: answered with an error, and accounted
+            seq = 400 + n
+            bad = rng.choice([b"p.nothere%d" % n, b"q%d.m" % n])
+            if rng.chance(1, 2):
+                s += [scn.feed_call(seq, n, meth=bad, pad=pad), "settle"]
+                wants.append("call~%d~served" % n)
+            else:
+                s += ["feedcallc/%d/%d/%s/%s/-" % (seq, rng.choice([1, 2]), bad.hex(), T(scn.arg(n, pad))), "settle"]
+                wants.append("callc~%d~served" % n)
+        elif k == 8:    # served compressed call (the record must be filed as CallCompressed)
+            seq = 300 + n
+            ct = rng.choice([1, 2])
+            s += ["feedcallc/%d/%d/%s/%s/-" % (seq, ct, me.hex(), T(scn.arg(n, pad))), "waithandlers/%d" % (hid + 1), scn.finish(hid, n, pad=rng.below(40)), "settle"]
+            hid += 1
+            wants.append("callc~%d~served" % n)
         elif k == 6:    # answered after a delay: reply arrives while the caller is parked in ClientReply? keep simple: either
             s += [scn.call(n, pad=pad, meth=me), "replyto/%d" % n, "await/c%d" % n]
             wants.append("call~%d~withreply" % n)
